@@ -8,7 +8,7 @@ import (
 	"perkeep.org/pkg/blob"
 
 	"verif/hs"
-	"verif/world"
+	vworld "verif/world"
 )
 
 const chunkSize = 256 << 10
@@ -31,6 +31,8 @@ type scen struct {
 	// fixedOrders, if set, replaces "all permutations of blobs".
 	fixedOrders [][]int
 	note        string
+	// deep: in the thorough tier explore a second crash level
+	deep bool
 }
 
 func (s *scen) isFile(b hs.Blob) bool {
@@ -52,7 +54,7 @@ func (s *scen) limit() int {
 var modT = time.Unix(1400000000, 0).UTC()
 
 func mkFile(name, fileName string, chunks ...hs.Blob) fileSpec {
-	f := fileSpec{blob: world.File(name, fileName, modT, chunks...), fileName: fileName}
+	f := fileSpec{blob: vworld.File(name, fileName, modT, chunks...), fileName: fileName}
 	for i, c := range chunks {
 		if i > 0 {
 			f.bounds = append(f.bounds, len(f.content))
